@@ -70,38 +70,54 @@ def _short(s, n=400):
 
 
 def confirm(run, family, module, items, env=None, race=False, shards=64):
-    """items: [(verdict, repro_json_string)].  Re-run each case twice against the freshly built code, re-judge
-    with TLC; only a reproduced, re-rejected case counts."""
-    cases = os.path.join(run.dir, "confirm-cases-%d.ndjson" % run.tlc_n)
-    with open(cases, "w") as f:
-        for _, repro in items:
-            f.write(repro + "\n")
-    outs = []
-    for k in (1, 2):
-        out = os.path.join(run.dir, "confirm-events-%d-%d.ndjson" % (run.tlc_n, k))
-        run.drive(["one", family, "-noearly"], out_path=out, stdin_path=cases, race=race)
-        outs.append(out)
-    ev1, ev2 = vlib.load_events(outs[0]), vlib.load_events(outs[1])
-    if len(ev1) != len(items):
-        raise MachineryError("driver 'one' returned %d events for %d cases" % (len(ev1), len(items)))
-    verdicts, _ = run.validate(module, outs[0], shards=shards, label="confirm", env=env, count=False)
-    bad = {v["l"]: v for v in verdicts if vlib.classify(v) == "mismatch"}
+    """items: [(verdict, repro_json_string)].  Re-run each case against the freshly built code and re-judge it with
+    TLC; only a reproduced, re-rejected case counts.  A case that does not reproduce is retried (up to three rounds:
+    a defect may depend on map iteration order); if nothing reproduces at all the run is a machinery error."""
     known = vlib.load_known(run.prop)
-    for i, (v0, repro) in enumerate(items):
-        v = bad.get(i + 1)
-        if v is None:
-            raise MachineryError("mismatch not reproduced for %s case %s (first verdict %s)" % (family, _short(repro), v0["r"]))
-        det = _strip(ev1[i]) == _strip(ev2[i])
-        reason = v["r"]
-        k = vlib.match_known(known, reason, repro)
-        rec = {"family": family, "reason": reason, "repro": json.loads(repro), "deterministic": det,
-               "event": {kk: vv for kk, vv in ev1[i].items() if kk not in ("repro", "stack")}}
-        if "stack" in ev1[i]:
-            rec["stack"] = ev1[i]["stack"][:3000]
-        if k:
-            run.known.append((k, rec))
-        else:
-            run.mismatches.append(rec)
+    pending = list(items)
+    reproduced = 0
+    for attempt in range(3):
+        if not pending:
+            break
+        cases = os.path.join(run.dir, "confirm-cases-%d-%d.ndjson" % (run.tlc_n, attempt))
+        with open(cases, "w") as f:
+            for _, repro in pending:
+                f.write(repro + "\n")
+        outs = []
+        for k in (1, 2):
+            out = os.path.join(run.dir, "confirm-events-%d-%d-%d.ndjson" % (run.tlc_n, attempt, k))
+            run.drive(["one", family, "-noearly"], out_path=out, stdin_path=cases, race=race)
+            outs.append(out)
+        ev1, ev2 = vlib.load_events(outs[0]), vlib.load_events(outs[1])
+        if len(ev1) != len(pending) or len(ev2) != len(pending):
+            raise MachineryError("driver 'one' returned %d / %d events for %d cases" % (len(ev1), len(ev2), len(pending)))
+        verdicts, _ = run.validate(module, outs[0], shards=shards, label="confirm", env=env, count=False)
+        bad = {v["l"]: v for v in verdicts if vlib.classify(v) == "mismatch"}
+        still = []
+        for i, (v0, repro) in enumerate(pending):
+            v = bad.get(i + 1)
+            if v is None:
+                still.append((v0, repro))
+                continue
+            reproduced += 1
+            det = _strip(ev1[i]) == _strip(ev2[i]) and attempt == 0
+            reason = v["r"]
+            k = vlib.match_known(known, reason, repro)
+            rec = {"family": family, "reason": reason, "repro": json.loads(repro), "deterministic": det,
+                   "event": {kk: vv for kk, vv in ev1[i].items() if kk not in ("repro", "stack")}}
+            if "stack" in ev1[i]:
+                rec["stack"] = ev1[i]["stack"][:3000]
+            if k:
+                run.known.append((k, rec))
+            else:
+                run.mismatches.append(rec)
+        pending = still
+    if pending and not reproduced:
+        v0, repro = pending[0]
+        raise MachineryError("mismatch not reproduced for %s case %s (first verdict %s)" % (family, _short(repro), v0["r"]))
+    if pending:
+        log("%d of %d mismatching cases did not reproduce in three rounds (counted as unreproduced, not as violations)" % (len(pending), len(items)))
+        run.unreproduced = getattr(run, "unreproduced", 0) + len(pending)
 
 
 def _strip(e):
